@@ -414,7 +414,7 @@ func main() {
 		states += st.States
 		trans += st.Transitions
 		execs += st.Executions
-		per[c.Name] = map[string]interface{}{"states": st.States, "transitions": st.Transitions, "depth_completed": st.MaxDepthCompleted, "frontier": st.Frontier}
+		per[c.Name] = map[string]interface{}{"states": st.States, "transitions": st.Transitions, "depth_completed": st.MaxDepthCompleted, "frontier": st.Frontier, "executions_repeated_after_infra_error": st.Retried}
 		if st.Capped {
 			r.NotExhaustive("internal time budget hit before the depth bound")
 		}
